@@ -168,6 +168,20 @@ impl SecondaryStorage {
     }
 }
 
+#[cfg(feature = "verif")]
+impl SecondaryStorage {
+    /// (verification hook) every pinned epoch with its reference count and the row-sets
+    /// `(table_id, rowset_id)` of its snapshot, sorted.
+    pub fn verif_pinned_rowsets(&self) -> Vec<(u64, usize, Vec<(u32, u32)>)> {
+        self.version.verif_pinned_rowsets()
+    }
+
+    /// (verification hook) root directory of the store.
+    pub fn verif_path(&self) -> std::path::PathBuf {
+        self.options.path.clone()
+    }
+}
+
 impl Storage for SecondaryStorage {
     type Transaction = SecondaryTransaction;
     type Table = SecondaryTable;
